@@ -19,4 +19,4 @@ INVARIANTS
   C04_ErrorsExact C04_DependentsDoNotRun C04_OthersStillBuilt C04_NothingRemembered C04_TriedAgain
   C05_Returns C05_NoChannelError C05_NoDeadlock C07_ContentAddressed C08_NothingLost
   C09_OnlyScopeTouched C10_CleanMovesToCache C10_BuildBringsBack C11_CrashStateSane C11_Recovers
-  C17_ContradictionReported C17_HistoryKept C17_OthersUnaffected C20_StatusTruth Aux_TableTruth Aux_SentTruth OutcomeProbe
+  C17_ContradictionReported C17_HistoryKept C17_OthersUnaffected C20_StatusTruth C20_FailuresOnce Aux_TableTruth Aux_SentTruth OutcomeProbe
